@@ -160,7 +160,7 @@ pub fn run(ctx: &Ctx) -> Rep {
         let sh = par_run(ctx, vchunks.len(), mk, |st, ci| {
             for &a in vchunks[ci] {
                 let want = neutral[a as usize];
-                let mut probe = |st: &mut St<X>, b: u16| {
+                let probe = |st: &mut St<X>, b: u16| {
                     let _ = HandRank::from(b);
                     let got = HandRank::from(a);
                     st.rep.evaluations += 2;
